@@ -2,6 +2,7 @@
 From Coq Require Import List NArith ZArith Bool.
 Local Open Scope N_scope.
 From PKO Require Import Base Owner Api Phase ObjectSet Deployment DeploymentProofs.
+From PKOCorr Require Import DeployCorr C08Corr.
 Import ListNotations.
 
 (** The archive decision (objectSetsToBeArchived) for EVERY chain of revisions of any length with any flags, whatever
@@ -163,6 +164,22 @@ Theorem C08_pruning_deletes_available_revision_witness :
   existsb (fun e => match e with DUpdate 200 LArchived _ WOk => true | _ => false end) evs = true.
 Proof. exact wit_gc_deletes_available. Qed.
 Print Assumptions C08_pruning_deletes_available_revision_witness.
+
+(** The archive and pruning monitors of the correspondence check accept every pass of the model (fresh List;
+    archive rule: repaired getter). *)
+Theorem C08_monitor_sound_archive :
+  forall hash fault slices rev0ok w w' evs r,
+    NoDup (map sname (dw_sets w)) -> dep_pass hash fault slices true rev0ok false w = (w', evs, r) ->
+    m08_archive slices (state_of w) (SDep false fault) (obs_of w' evs r) = true.
+Proof. exact monitor_sound_archive. Qed.
+Print Assumptions C08_monitor_sound_archive.
+
+Theorem C08_monitor_sound_gc :
+  forall hash fault slices sliceaware rev0ok w w' evs r,
+    NoDup (map sname (dw_sets w)) -> dep_pass hash fault slices sliceaware rev0ok false w = (w', evs, r) ->
+    m08_gc (state_of w) (SDep false fault) (obs_of w' evs r) = true.
+Proof. exact monitor_sound_gc. Qed.
+Print Assumptions C08_monitor_sound_gc.
 
 (** Non-vacuity. *)
 Example C08_archive_happens :
